@@ -1166,5 +1166,6 @@ func TestC13(t *testing.T) {
 			}
 			rec.Fail(rt, f.key, f.what, cs)
 		}
+		c13Failed.Store(false) // reached only if every failure was a listed finding
 	})
 }
